@@ -4,6 +4,7 @@ chosen block layout, indexed by the real `gaftools index`, with the ground-truth
 record -> traversed nodes."""
 
 import os
+from vf.util import vary_name  # noqa: E402
 import pickle
 
 from vf import bgzf
@@ -23,7 +24,7 @@ def build(rng, casedir, index, tier, stable=None, size=None, nrec=None, tags="sa
     g = rgfa.gen_rgfa(rng, size=size)
     w.g = g
     w.coords = rgaf.Coords(g)
-    w.gfa = g.write(os.path.join(casedir, "g.gfa" + (".gz" if rng.random() < 0.2 else "")), rng=rng,
+    w.gfa = g.write(os.path.join(casedir, vary_name(rng, "g.gfa") + (".gz" if rng.random() < 0.2 else "")), rng=rng,
                     shuffle=rng.random() < 0.5)
     w.stable = rng.random() < 0.5 if stable is None else stable
     if nrec is None:
@@ -44,7 +45,7 @@ def build(rng, casedir, index, tier, stable=None, size=None, nrec=None, tags="sa
     w.nodesets = [rgaf.traversed_nodes(g, w.coords, l) for l in lines]
     w.mode = mode or rng.choice(["plain", "plain", "bgzf", "pysam"])
     w.layout = rng.choice(["standard", "tiny", "tiny", "line_start"])
-    w.gaf = os.path.join(casedir, "a.gaf" + ("" if w.mode == "plain" else ".gz"))
+    w.gaf = os.path.join(casedir, vary_name(rng, "a.gaf") + ("" if w.mode == "plain" else ".gz"))
     w.final_newline = rng.random() >= 0.15
     ggaf.write_gaf(w.gaf, lines, mode=w.mode, rng=rng, layout=w.layout, final_newline=w.final_newline)
     w.blocks = bgzf.BgzfIndex(w.gaf).data_blocks() if w.mode != "plain" else 0
